@@ -57,8 +57,8 @@ def parse_trace(text, maxlines=20000):
         return "?" + p
 
     lines = text.split("\n")
-    if lines and lines[-1] and "|" not in lines[-1] and not lines[-1].startswith("q "):
-        lines = lines[:-1]            # a cut-off last line
+    if lines and lines[-1] != "":
+        lines = lines[:-1]            # no final newline: the process was killed while writing its last line
     first = True
     dead = set()
     for ln in lines[:maxlines]:
@@ -289,7 +289,43 @@ def run_random(ctx, d, emb, exe, tdir, replay_base, nprog, nsched):
     (2) every traced state compared with the extracted model, (3) the logged outcomes compared with the outcomes
     predicted from the model's answers through the wrapper semantics of interface.scm."""
     rng = ctx.rng
-    progs = [R.gen_program(rng) for _ in range(nprog)]
+    acc = dict(feats={}, found={}, diverge=None, outcome_diff=None, n_lines=0, n_traces=0, n_outside=0, n_pred=0, n_gap=0,
+               n_df=0, runs=0, first=None, hangs=0)
+    done = 0
+    while done < nprog and acc["hangs"] < 6:
+        k = min(100, nprog - done)           # bounded memory: 100 programs (x schedules) per round
+        _random_chunk(ctx, d, emb, exe, tdir, replay_base, [R.gen_program(rng) for _ in range(k)], nsched, acc)
+        done += k
+    feats, found, diverge, outcome_diff = acc["feats"], acc["found"], acc["diverge"], acc["outcome_diff"]
+    ctx.cov["random_programs"] = dict(programs=done, runs=acc["runs"], traces=acc["n_traces"], trace_lines_vs_model=acc["n_lines"],
+                                      outcomes_predicted=acc["n_pred"], cut_at_terminate_of_timed_waiter=acc["n_outside"],
+                                      cut_at_untraced_scheduler_call=acc["n_gap"], deadlock_free=acc["n_df"])
+    ctx.cov["random_situations_reached"] = dict(sorted(feats.items()))
+    ctx.cov["traces_validated_against_impl"] += acc["n_traces"]
+    for cls, det in found.items():
+        if det is not None:
+            ctx.violation(cls, **det)
+    if diverge:
+        mm, p, sc, rp = diverge
+        msg = "model and threads.c disagree at event %s (%s): %s; program %s schedule %s" % (mm["line"], mm["request"], mm["why"], p["expr"], sc[:200])
+        if [c for c in found if found[c] is not None]:
+            ctx.note("random programs: " + msg)
+        else:
+            ctx.broken("correspondence:scheduler-trace", msg, model=mm["model"], impl=mm["impl"], replay=rp)
+    if outcome_diff:
+        (i, a, b), p, sc, rp = outcome_diff
+        msg = ("thread %s: outcomes predicted from the model %s, logged by the program %s" % (i, a, b)) if i is not None else a
+        if [c for c in found if found[c] is not None]:
+            ctx.note("random programs: outcome prediction: " + msg)
+        else:
+            ctx.broken("correspondence:wrapper-outcome", msg + "; program %s schedule %s" % (p["expr"], sc[:200]), replay=rp)
+    if acc["first"]:
+        ctx.sample(acc["first"])
+    return acc["n_lines"]
+
+
+def _random_chunk(ctx, d, emb, exe, tdir, replay_base, progs, nsched, acc):
+    rng = ctx.rng
     reqs, meta = [], []
     for pi, p in enumerate(progs):
         for si, sc in enumerate(seed_schedules(rng, nsched)):
@@ -297,11 +333,14 @@ def run_random(ctx, d, emb, exe, tdir, replay_base, nprog, nsched):
             reqs.append((sc, "1000", tr, p["expr"]))
             meta.append((p, sc, tr))
     outs = parallel_batches(d, emb, reqs, jobs=4, limit=4)
-    feats = {}
-    found = {}           # class -> detail of the first witness
-    diverge = None
-    outcome_diff = None
+    feats, found = acc["feats"], acc["found"]
+    diverge, outcome_diff = acc["diverge"], acc["outcome_diff"]
     n_lines = n_traces = n_outside = n_pred = n_gap = 0
+    acc["runs"] += len(reqs)
+    acc["n_df"] += sum(1 for p in progs if p["df"])
+    acc["hangs"] += sum(1 for o in outs if o in (None, "TIMEOUT"))
+    if acc["first"] is None and progs:
+        acc["first"] = dict(kind="random", program=progs[0]["expr"][:400], schedule=meta[0][1], impl=(outs[0] or "")[:300])
     parsed = []
     for (p, sc, tr), o in zip(meta, outs):
         text = ""
@@ -399,30 +438,12 @@ def run_random(ctx, d, emb, exe, tdir, replay_base, nprog, nsched):
             except R.Mismatch as e:
                 if outcome_diff is None:
                     outcome_diff = ((None, str(e), None), p, sc, rp)
-    ctx.cov["random_programs"] = dict(programs=nprog, runs=len(reqs), traces=n_traces, trace_lines_vs_model=n_lines, outcomes_predicted=n_pred,
-                                      cut_at_terminate_of_timed_waiter=n_outside, cut_at_untraced_scheduler_call=n_gap, deadlock_free=sum(1 for p in progs if p["df"]))
-    ctx.cov["random_situations_reached"] = dict(sorted(feats.items()))
-    ctx.cov["traces_validated_against_impl"] += n_traces
-    for cls, det in found.items():
-        if det is not None:
-            ctx.violation(cls, **det)
-    if diverge:
-        mm, p, sc, rp = diverge
-        msg = "model and threads.c disagree at event %s (%s): %s; program %s schedule %s" % (mm["line"], mm["request"], mm["why"], p["expr"], sc[:200])
-        if [c for c in found if found[c] is not None]:
-            ctx.note("random programs: " + msg)
-        else:
-            ctx.broken("correspondence:scheduler-trace", msg, model=mm["model"], impl=mm["impl"], replay=rp)
-    if outcome_diff:
-        (i, a, b), p, sc, rp = outcome_diff
-        msg = ("thread %s: outcomes predicted from the model %s, logged by the program %s" % (i, a, b)) if i is not None else a
-        if [c for c in found if found[c] is not None]:
-            ctx.note("random programs: outcome prediction: " + msg)
-        else:
-            ctx.broken("correspondence:wrapper-outcome", msg + "; program %s schedule %s" % (p["expr"], sc[:200]), replay=rp)
-    if progs:
-        ctx.sample(dict(kind="random", program=progs[0]["expr"][:400], schedule=meta[0][1], impl=(outs[0] or "")[:300]))
-    return n_lines
+    acc["diverge"], acc["outcome_diff"] = diverge, outcome_diff
+    for k_, v_ in (("n_lines", n_lines), ("n_traces", n_traces), ("n_outside", n_outside), ("n_pred", n_pred), ("n_gap", n_gap)):
+        acc[k_] += v_
+    for f in os.listdir(tdir):
+        if f.startswith("r"):
+            os.unlink(os.path.join(tdir, f))
 
 
 # --------------------------------------------------------------------------- harness driving
